@@ -3,7 +3,7 @@ From Coq Require Import ZArith List Bool.
 From Coq Require String.
 From PS.model Require Import Smt Enc Ind Prog.
 From PS.spec Require Import Spec.
-From PS.proofs Require Import Base Cons_proof Res_proof Wf_proof C06_proof Examples.
+From PS.proofs Require Import Base Cons_proof Res_proof Wf_proof C06_proof C05_proof C06_delete Examples Examples5.
 Import ListNotations.
 Open Scope Z_scope.
 
@@ -11,9 +11,10 @@ Open Scope Z_scope.
    tasks hold; an unscheduled optional task keeps every worker it requires busy only before time 0
    (so it is filtered from the report and conflicts with no scheduled task); a scheduled optional
    task obeys exactly the clauses of a mandatory one because every C01-C04 clause is guarded by
-   the scheduled flag alone (act).  Not proved: the deletion equivalence (schedules of the other
-   tasks = schedules of the problem with the unscheduled tasks deleted); refuted on the pinned code
-   for work amounts, buffers, groups (known findings F12, F13, F31). *)
+   the scheduled flag alone (act).  The deletion equivalence is proved on the fragment of C05 (tasks of the three kinds +
+   start/end/precedence/synchronisation constraints + scheduling rules, no resources, buffers or indicators), see
+   C06_unscheduled_is_deleted / C06_deleted_is_unscheduled below; elsewhere it is searched by the lost-schedule probe (the
+   losses it found -- work amounts F12, groups F31 -- are repaired) and refuted for buffers (known finding F13). *)
 Theorem C06_optional_partial : forall ops st e, reaches ops st -> sat e (initialize st) ->
   forall k f, In (k, f) (spec_C06 st) -> feval e f = true.
 Proof. intros ops st e Hr. apply C06_sound. exact (reachable_wf ops st Hr). Qed.
@@ -24,6 +25,31 @@ Print Assumptions C06_guard_mandatory.
 Theorem C06_guard_optional : forall e t, ti_opt t = true -> feval e (act t) = bv e (BSched (ti_id t)).
 Proof. exact act_optional. Qed.
 Print Assumptions C06_guard_optional.
+(* Deletion equivalence on the C05 fragment.  del st t = the same problem without the optional task t and without the
+   constraints that name it.  (1) Spec level: when t is not scheduled, the timing and constraint clauses of the problem
+   hold iff those of the smaller problem do.  (2) Every valuation admitted by the constraint system in which t is not
+   scheduled gives the same schedule of the other tasks as some valuation admitted by the constraint system of the
+   smaller problem.  (3) Conversely, provided the scheduling rules naming t hold with t left out. *)
+Theorem C06_delete_spec : forall st t e, fragment st -> In t (ps_tasks st) -> ti_opt t = true ->
+  bv e (BSched (ti_id t)) = false -> (valid13 st e <-> valid13 (del st t) e).
+Proof. exact delete_spec. Qed.
+Print Assumptions C06_delete_spec.
+Theorem C06_unscheduled_is_deleted : forall st t e1, fragment st -> In t (ps_tasks st) -> ti_opt t = true ->
+  sat e1 (initialize st) -> bv e1 (BSched (ti_id t)) = false ->
+  exists e2, sat e2 (initialize (del st t)) /\ same_schedule (del st t) e1 e2.
+Proof. exact unscheduled_is_deleted. Qed.
+Print Assumptions C06_unscheduled_is_deleted.
+Theorem C06_deleted_is_unscheduled : forall st t e2, fragment st -> In t (ps_tasks st) -> ti_opt t = true ->
+  sat e2 (initialize (del st t)) -> bv e2 (BSched (ti_id t)) = false -> rules_naming st t e2 ->
+  exists e1, sat e1 (initialize st) /\ same_schedule st e2 e1.
+Proof. exact deleted_is_unscheduled. Qed.
+Print Assumptions C06_deleted_is_unscheduled.
+Theorem C06_deletion_hypotheses_satisfiable : exists st t, reaches ex5_prog st /\ fragment st /\ In t (ps_tasks st) /\ ti_opt t = true
+  /\ bv ex5_schedule (BSched (ti_id t)) = false /\ rules_naming st t ex5_schedule
+  /\ List.length (ps_tasks (del st t)) = 2%nat /\ List.length (ps_cons (del st t)) = 2%nat
+  /\ valid13 st ex5_schedule.
+Proof. exact ex5_delete. Qed.
+Print Assumptions C06_deletion_hypotheses_satisfiable.
 Theorem C06_hypotheses_satisfiable : exists st, reaches ex2_prog st /\ sat ex2_env (initialize st)
   /\ List.length (ps_cons st) = 18%nat /\ List.length (spec_all st) = 86%nat.
 Proof. exact ex2_sat. Qed.
